@@ -38,7 +38,7 @@ def shapes(spec):
         if k == 'pad1d':
             sh.append((c, sp[0] + nd['left']))
         elif k == 'conv1d':
-            sh.append((nd['cout'], conv_out(sp[0], nd['ks'], nd['dil'], nd['stride'], 0)))
+            sh.append((nd['cout'], conv_out(sp[0], nd['ks'], nd['dil'], nd['stride'], 2 * nd['padding'] if isinstance(nd.get('padding'), int) else 0)))
         elif k == 'conv2d':
             if nd['padding'] == 'same':
                 sh.append((nd['cout'], sp[0], sp[1]))
@@ -246,6 +246,11 @@ class G:
             dil = rng.choice(self.o.get('dil', [1, 1, 2, 3]))
             stride = 2 if (stride_ok and rng.random() < self.o.get('p_stride', 0.15) and self.sh(cur)[1] >= 4) else 1
             left = (ks - 1) * dil
+            # opt-in (p_intpad): a STRIDED conv with ordinary symmetric integer padding instead of the causal pad + padding 0
+            # convention (its time masks are frozen by PIT, so nothing has to be re-padded at export)
+            if stride == 2 and self.o.get('p_intpad', 0) and rng.random() < self.o['p_intpad'] and self.sh(cur)[1] + 2 * (left // 2) - left >= 1:
+                co = c if dw else (cout or rng.randint(1, self.o.get('cmax', 6)))
+                return self.add(k='conv1d', src=cur, cin=c, cout=co, ks=ks, dil=dil, stride=stride, groups=c if dw else 1, bias=rng.random() < 0.7, padding=left // 2)
             if left > 0 or rng.random() < 0.5:
                 cur = self.add(k='pad1d', src=cur, left=left)
             co = c if dw else (cout or rng.randint(1, self.o.get('cmax', 6)))
@@ -275,8 +280,8 @@ class G:
         c = self.sh(cur)[0]
         p = rng.random()
         w = self.o.get('weights', {})
-        kinds = ['conv', 'dw', 'res', 'res2', 'cat', 'pool', 'misc', 'dwchain']
-        ws = [w.get(k, d) for k, d in zip(kinds, [0.34, 0.12, 0.14, 0.08, 0.14, 0.06, 0.06, 0.06])]
+        kinds = ['conv', 'dw', 'res', 'res2', 'cat', 'pool', 'misc', 'dwchain', 'nestcat']
+        ws = [w.get(k, d) for k, d in zip(kinds, [0.34, 0.12, 0.14, 0.08, 0.14, 0.06, 0.06, 0.06, 0.0])]      # nestcat is opt-in
         kind = rng.choices(kinds, ws)[0]
         self.prod.append(kind)
         if kind == 'conv':
@@ -317,6 +322,17 @@ class G:
             if all(s == cur for s in srcs):
                 srcs[0] = self.same_shape_conv(cur)
             cur = self.add(k='cat', src=srcs, dim=1)
+        elif kind == 'nestcat':
+            # cat([cat([a, b]), c]) + skip(x), the skip convolution created BEFORE a, b, c: the whole nest is in the frozen
+            # group of the add, whatever the order in which the sharing components are numbered
+            ca, cb, cc = rng.randint(1, 3), rng.randint(1, 3), rng.randint(1, 3)
+            skip = self.same_shape_conv(cur, cout=ca + cb + cc)
+            a = self.act(self.same_shape_conv(cur, cout=ca))
+            b = self.same_shape_conv(cur, cout=cb)
+            inner = self.add(k='cat', src=[a, b], dim=1)
+            c2 = self.same_shape_conv(cur, cout=cc)
+            outer = self.add(k='cat', src=[inner, c2] if rng.random() < 0.7 else [c2, inner], dim=1)
+            cur = self.act(self.add(k='add', src=[outer, skip] if rng.random() < 0.5 else [skip, outer]))
         elif kind == 'pool':
             sp = self.sh(cur)[1:]
             if min(sp) >= 4:
